@@ -140,6 +140,14 @@ def run(check: Check) -> None:
             check.obligation("metadata.generated/ground", "refuted" if any("[factors not in sorted order]" not in t for t, _ in found) else "ground")
             for tag, msg in found:
                 check.violation(f"metadata::{tag}", f"({out} output) {formula!r}: {msg}", dict(p, tag=tag))
+    # two generated columns with the SAME name (a data column called 'a:b' next to the interaction a:b): every output type keeps both
+    for formula, out in itertools.product(("`a:b` + a:b", "0 + a:b + `a:b`:A", "a*b + `a:b`"), ("pandas", "numpy", "sparse")):
+        p = {"kind": "c10_dupnames", "formula": formula, "output": out}
+        bad = replays.run(p)
+        check.case(f"duplicate-names:{formula}:{out}")
+        check.obligation("metadata.duplicate_names/ground", "refuted" if bad else "ground")
+        if bad:
+            check.violation(f"metadata::duplicate-names::{bad.split(':', 1)[0]}", bad, p)
     # multi-column spline transforms at a concrete point (ground)
     for formula in ("bs(a, df=4) + B:A", "cr(a, df=3):A + b", "0 + A:bs(b, df=3)"):
         for efr in (True, False):
